@@ -4,7 +4,7 @@
 //
 // usage: parser_harness split <shard> <nshards> <level>     level 0 = quick, 1 = thorough
 //        parser_harness bytes <shard> <nshards> <maxlen>
-//        parser_harness mut
+//        parser_harness mut <shard> <nshards>
 //        parser_harness one <escaped-bytes> [cut ...]        replay a single case, prints the outcome
 #include "hist/hist.h"
 #include <tbox/http/server/request_parser.h>
@@ -225,9 +225,9 @@ static int run_split(long shard, long nshards, int level, double deadline) {
   for (long i = 0; i < n && !late(); i++) if (mine()) sweep_stream(make_stream(g, {(int)i}), level ? 3 : 2, true);
   // 2-request streams: quick = A x A for a covering subset A (stride through the grammar), thorough = (all x B) + (B x all), B covering subset
   std::vector<int> A, B, C;
-  for (long i = 0; i < n; i += (level ? 7 : 11)) A.push_back((int)i);     // stride co-prime to every grammar dimension
+  for (long i = 0; i < n; i += (level ? 7 : 17)) A.push_back((int)i);     // stride co-prime to every grammar dimension
   for (long i = 0; i < n; i += 37) B.push_back((int)i);
-  for (long i = 0; i < n; i += (level ? 41 : 67)) C.push_back((int)i);
+  for (long i = 0; i < n; i += (level ? 41 : 89)) C.push_back((int)i);
   if (!level) { for (int a : A) for (int b : A) { if (late()) break; if (mine()) sweep_stream(make_stream(g, {a, b}), 2, true); } }
   else {
     for (long a = 0; a < n; a++) for (int b : B) { if (late()) break; if (mine()) sweep_stream(make_stream(g, {(int)a, b}), 2, true); }
@@ -349,10 +349,11 @@ static std::vector<Mut> mutations() {
   return v;
 }
 
-static int run_mut(double deadline) {
-  auto ms = mutations(); long execs = 0, distinct = 0; int samples = 0; (void)deadline;
+static int run_mut(long shard, long nshards, double deadline) {
+  auto ms = mutations(); long execs = 0, distinct = 0, work = 0; int samples = 0; (void)deadline;
   std::string second = "GET /next HTTP/1.1\r\nContent-Length: 0\r\n\r\n";
   for (auto &m : ms) {
+    if ((work++ % nshards) != shard) continue;
     for (int variant = 0; variant < 3; variant++) {      // alone; followed by a valid request; preceded by a valid request
       std::string data = variant == 0 ? m.data : variant == 1 ? m.data + second : second + m.data; distinct++;
       std::string mode = "mut[" + m.name + (variant == 1 ? "+valid-request-after" : variant == 2 ? "+valid-request-before" : "") + "]";
@@ -364,10 +365,10 @@ static int run_mut(double deadline) {
         for (c[0] = 1; c[0] < L; c[0]++) { total_check(mode.c_str(), data, c, 1, execs); if (L <= 120) for (c[1] = c[0] + 1; c[1] < L; c[1]++) total_check(mode.c_str(), data, c, 2, execs); }
       }
       for (size_t k : {1, 2, 3, 7, 1024}) { std::vector<size_t> cuts; for (size_t x = k; x < L; x += k) cuts.push_back(x); if (!cuts.empty()) total_check(mode.c_str(), data, cuts.data(), (int)cuts.size(), execs); }
-      if (samples < 3 && variant == 0 && (distinct % 40) == 4) { samples++; printf("@SAMPLE %s %s\n", mode.c_str(), case_text(data, nullptr, 0).substr(0, 240).c_str()); }
+      if (samples < 2 && variant == 0 && (distinct % 40) == 4) { samples++; printf("@SAMPLE %s %s\n", mode.c_str(), case_text(data, nullptr, 0).substr(0, 240).c_str()); }
     }
   }
-  printf("@INFO mut: %zu single-field mutations x 3 contexts, every 1-cut split (2-cut when <=120 bytes), uniform chunks 1/2/3/7: inputs=%ld feeds=%ld\n", ms.size(), distinct, execs);
+  printf("@INFO mut shard %ld/%ld: %zu single-field mutations (all shards) x 3 contexts, every 1-cut split (2-cut when <=120 bytes), uniform chunks 1/2/3/7: inputs=%ld feeds=%ld\n", shard, nshards, ms.size(), distinct, execs);
   printf("@STAT states=%ld transitions=%ld executions=%ld mutation_inputs=%ld parse_calls=%ld violations=%ld\n", distinct, execs, execs, distinct, g_parse_calls, g_viol_total);
   return 0;
 }
@@ -383,7 +384,7 @@ int main(int argc, char **argv) {
   int rc = 0;
   if (mode == "split") { g_cur_mode = "split"; rc = run_split(atol(argv[2]), atol(argv[3]), atoi(argv[4]), deadline); flush_outcomes("split"); }
   else if (mode == "bytes") { g_cur_mode = "bytes"; rc = run_bytes(atol(argv[2]), atol(argv[3]), atoi(argv[4]), deadline); flush_outcomes("bytes"); }
-  else if (mode == "mut") { rc = run_mut(deadline); flush_outcomes("mut"); }
+  else if (mode == "mut") { rc = run_mut(argc > 2 ? atol(argv[2]) : 0, argc > 3 ? atol(argv[3]) : 1, deadline); flush_outcomes("mut"); }
   else if (mode == "one") {
     std::string data = unesc(argc > 2 ? argv[2] : ""); std::vector<size_t> cuts; for (int i = 3; i < argc; i++) cuts.push_back((size_t)atol(argv[i]));
     Outcome o = feed(data, cuts.data(), (int)cuts.size()); printf("%s => %s\n", case_text(data, cuts.data(), (int)cuts.size()).c_str(), o.str().c_str());
